@@ -6,6 +6,7 @@ Child processes (backticks, `shell()`) and every function outside the concrete s
 -/
 import Just.Model.Expr
 import Just.Model.Path
+import Just.Model.Percent
 namespace Just.Eval
 open Just
 
@@ -132,6 +133,8 @@ def pureFn (ctx : Ctx) (fn : String) (args : List String) : Option (Except Strin
       | some v => .ok v
       | none => .error ("environment variable `" ++ k ++ "` not present"))
   | "env_var_or_default", [k, d] => some (.ok ((ctx.envVar k).getD d))
+  | "encode_uri_component", [t] =>
+    some (.ok (String.ofList ((Percent.encode (t.toUTF8.toList.map UInt8.toNat)).map Char.ofNat)))
   | "clean", [p] => some (.ok (String.ofList (Path.cleanFn p.toList)))
   | "file_name", [p] => some (match Path.fileName p.toList with
       | some f => .ok (String.ofList f)
